@@ -46,6 +46,7 @@ fn main() {
     }
     let (mode, id, arg) = (args[1].as_str(), args[2].as_str(), args[3].as_str());
     let code = match id {
+        "C06" => dispatch(&props::c06::C06, mode, arg),
         "C10" => dispatch(&props::c10::C10, mode, arg),
         "C12" => dispatch(&props::c12::C12, mode, arg),
         "C16" => dispatch(&props::c16::C16, mode, arg),
